@@ -295,6 +295,9 @@ impl Network {
             );
         }
 
+        // release the peers lock before the blockchain / configs locks are taken (lock order)
+        drop(peers);
+
         self.io_interface
             .send_interface_event(InterfaceEvent::PeerConnected(peer_index));
         // start block syncing here
